@@ -49,6 +49,9 @@ theorem gaussian_loops_eq : gaussianLoops = expectedGaussianLoops := by decide
 
 theorem poisson_skeleton_eq : poissonSkeleton = expectedPoissonSkeleton := by decide
 
+/-- `choose_acceleration`: one index draw selects acceleration and centre fraction of the same position; `uniform_range` raises -/
+theorem choose_skeleton_eq : chooseSkeleton = expectedChooseSkeleton := by decide
+
 /-- nothing between the last tolerance evaluation and `return mask` modifies `mask`, and `mask` itself is returned -/
 theorem poisson_post_ok : postOk poissonPost = true := by decide
 
